@@ -609,3 +609,66 @@ def str_template(node: ast.AST):
             args += a
         return out, args
     return None
+
+
+# ---------------------------------------------------------------------------------------------------------------------
+def path_counts(stmts, pred) -> set:
+    """How many nodes satisfying `pred` are evaluated on a path through `stmts`: the set of counts over all paths that end by
+    falling off the end or returning (paths that raise are left out).  A loop whose body can count contributes 0 or 'many' (99)."""
+    MANY = 99
+
+    def count_expr(node) -> int:
+        return sum(1 for x in ast.walk(node) if pred(x))
+
+    def go(seq):
+        """-> (counts of paths still running, counts of paths that returned)"""
+        running, done = {0}, set()
+        for st in seq:
+            if not running:
+                break
+            if isinstance(st, ast.Return):
+                c = count_expr(st)
+                done |= {min(MANY, r + c) for r in running}
+                running = set()
+            elif isinstance(st, ast.Raise):
+                running = set()
+            elif isinstance(st, ast.Assert) and isinstance(st.test, ast.Constant) and not st.test.value:
+                running = set()
+            elif isinstance(st, ast.If):
+                c = count_expr(st.test)
+                r1, d1 = go(st.body)
+                r2, d2 = go(st.orelse)
+                done |= {min(MANY, r + c + d) for r in running for d in d1 | d2}
+                running = {min(MANY, r + c + x) for r in running for x in r1 | r2}
+            elif isinstance(st, (ast.For, ast.While, ast.AsyncFor)):
+                inner = count_expr(st)
+                if inner:
+                    running = {x for r in running for x in (r, MANY)}
+                r2, d2 = go(st.orelse)
+                done |= {min(MANY, r + d) for r in running for d in d2}
+                running = {min(MANY, r + x) for r in running for x in r2}
+            elif isinstance(st, ast.Try):
+                rb, db = go(list(st.body) + list(st.orelse))
+                rs, ds = set(rb), set(db)
+                for h in st.handlers:
+                    rh, dh = go(h.body)
+                    rs |= rh
+                    ds |= dh
+                if st.finalbody:
+                    rf, df = go(st.finalbody)
+                    rs = {min(MANY, a + b) for a in rs for b in rf}
+                done |= {min(MANY, r + d) for r in running for d in ds}
+                running = {min(MANY, r + x) for r in running for x in rs}
+            elif isinstance(st, (ast.With, ast.AsyncWith)):
+                c = sum(count_expr(it.context_expr) for it in st.items)
+                rb, db = go(st.body)
+                done |= {min(MANY, r + c + d) for r in running for d in db}
+                running = {min(MANY, r + c + x) for r in running for x in rb}
+            elif isinstance(st, (ast.FunctionDef, ast.AsyncFunctionDef, ast.ClassDef)):
+                continue
+            else:
+                c = count_expr(st)
+                running = {min(MANY, r + c) for r in running}
+        return running, done
+    r, d = go(list(stmts))
+    return r | d
